@@ -92,9 +92,9 @@ def refUnion (tbl : ClassTable) (ps : Positions) (vars : VarMap) (retAnn : Ty) (
   let runs := (splitVars vars).map fun vm => refRun tbl ps (Env.ofList vm) retAnn body
   (unite (runs.map (·.1)), (runs.flatMap (·.2)).eraseDups)
 
-/-- The document's context of a call: as the model's, except that an omitted parameter whose default
-is `...` has its annotation as its type ("If the default is `...`, the type is the parameter's
-annotation instead"). -/
+/-- The document's context of a call: an omitted parameter whose default is `...` has its annotation as
+its type ("If the default is `...`, the type is the parameter's annotation instead"); everything else as
+the binder reports it. -/
 def specContext (c : EvalCase) : Option (Positions × VarMap) := contextWith id c
 
 def refCall (tbl : ClassTable) (c : EvalCase) : Option (Ty × List String) :=
@@ -131,8 +131,9 @@ def Stmt.testsL : List Stmt → List (String × Ty × Bool)
   | s :: ss => s.tests ++ Stmt.testsL ss
 end
 
-/-- one type test re-types a *matching* member of the variable's type: the positive narrowing does not
-keep the member as it is (predicates.py:65‥66 hands back the pattern for `Any`-like members) -/
+/-- one type test re-types a *matching* member of the variable's type: the positive narrowing of a full
+match (`constrain_value`) does not keep the member as it is (predicates.py:65‥66 hands back the pattern
+for `Any`-like members) -/
 def retypedTest (tbl : ClassTable) (vars : VarMap) (vtx : String × Ty × Bool) : Bool :=
   match vars.lookup vtx.1 with
   | some a => (flatten1 a).any fun m => ca tbl vtx.2.2 vtx.2.1 m && narrowTag tbl vtx.2.1 m != .keep
@@ -144,94 +145,38 @@ type matches without being kept by the positive narrowing — in practice an `An
 def D20_retyped (tbl : ClassTable) (vars : VarMap) (body : List Stmt) : Bool :=
   (Stmt.testsL body).any (retypedTest tbl vars)
 
-/-- one type test lets a *non-matching* member of a union into the positive branch -/
-def overlapTest (tbl : ClassTable) (vars : VarMap) (vtx : String × Ty × Bool) : Bool :=
-  match vars.lookup vtx.1 with
-  | some a => isUnionVal a &&
-      (flatten1 a).any fun m => !ca tbl vtx.2.2 vtx.2.1 m && narrowTag tbl vtx.2.1 m != .drop
-  | none => false
-
-/-- **class `overlapNarrow`**: the body tests a union-typed variable against a pattern that some member
-does not match but overlaps (predicates.py:69 `return self.pattern_value`; the narrowing also ignores
-`exclude_any`): that member enters the positive branch re-typed as the pattern. -/
-def D20_overlapNarrow (tbl : ClassTable) (vars : VarMap) (body : List Stmt) : Bool :=
-  (Stmt.testsL body).any (overlapTest tbl vars)
-
 def isPass : Stmt → Bool
   | .pass => true
   | _ => false
 
 mutual
-/-- Instrumented run of the model: does `pc` hold at some executed `if` condition (with the environment
-it is evaluated in), or `pb` at some executed statement that does not return for every member (with its
-flattened result and the statements that follow it in its block)? -/
-def walkStmt (tbl : ClassTable) (ps : Positions) (pc : Env → Cond → Bool)
-    (pb : EvalRet → List Stmt → Bool) (e : Env) : Stmt → Bool
+/-- Instrumented run of the model: does `pb` hold at some executed statement that does not return for
+every member (with its flattened result and the statements that follow it in its block)? -/
+def walkStmt (tbl : ClassTable) (ps : Positions) (pb : EvalRet → List Stmt → Bool) (e : Env) : Stmt → Bool
   | .ite c body orelse =>
-    pc e c ||
-    (let r := evalCond tbl ps e c
-     match r.left, r.right with
-     | some l, some rr => walkBlock tbl ps pc pb (e.over l) body || walkBlock tbl ps pc pb (e.over rr) orelse
-     | some l, none => walkBlock tbl ps pc pb (e.over l) body
-     | none, some rr => walkBlock tbl ps pc pb (e.over rr) orelse
+    let r := evalCond tbl ps e c
+    (match r.left, r.right with
+     | some l, some rr => walkBlock tbl ps pb (e.over l) body || walkBlock tbl ps pb (e.over rr) orelse
+     | some l, none => walkBlock tbl ps pb (e.over l) body
+     | none, some rr => walkBlock tbl ps pb (e.over rr) orelse
      | none, none => false)
   | _ => false
-def walkBlock (tbl : ClassTable) (ps : Positions) (pc : Env → Cond → Bool)
-    (pb : EvalRet → List Stmt → Bool) (e : Env) : List Stmt → Bool
+def walkBlock (tbl : ClassTable) (ps : Positions) (pb : EvalRet → List Stmt → Bool) (e : Env) :
+    List Stmt → Bool
   | [] => false
   | s :: ss =>
-    walkStmt tbl ps pc pb e s ||
+    walkStmt tbl ps pb e s ||
       (let r := (evalStmt tbl ps e s).1
        if r.all Option.isSome then false
-       else pb r ss || walkBlock tbl ps pc pb e ss)
+       else pb r ss || walkBlock tbl ps pb e ss)
 end
 
 /-- **class `fallThrough`**: in some executed block a statement returns for some union members and falls
 through for others (its `CombinedReturn` mixes values and `None`) and is followed by statements other
-than `pass`: `visit_block` (:655) keeps the returns and goes on with the *un-narrowed* variables, so the
+than `pass`: `visit_block` (:670) keeps the returns and goes on with the *un-narrowed* variables, so the
 members that already returned are evaluated again by the rest. -/
 def D20_fallThrough (tbl : ClassTable) (ps : Positions) (e : Env) (body : List Stmt) : Bool :=
-  walkBlock tbl ps (fun _ _ => false) (fun r ss => r.any Option.isSome && !ss.all isPass) e body
-
-def nonEmptyMap : Option VarMap → Bool
-  | some (_ :: _) => true
-  | _ => false
-
-mutual
-/-- does evaluating the condition hit the early `return` of `visit_BoolOp` (:534 / :560) while earlier
-operands matched partially, with a non-empty variable map? -/
-def dropCond (tbl : ClassTable) (ps : Positions) (e : Env) : Cond → Bool
-  | .not c => dropCond tbl ps e c
-  | .and cs => dropAnd tbl ps e false cs
-  | .or cs => dropOr tbl ps e false cs
-  | _ => false
-def dropAnd (tbl : ClassTable) (ps : Positions) (e : Env) (rem : Bool) : List Cond → Bool
-  | [] => false
-  | c :: cs =>
-    dropCond tbl ps e c ||
-    (let r := evalCond tbl ps e c
-     match r.left, r.right with
-     | none, rr => rem && nonEmptyMap rr
-     | some l, none => dropAnd tbl ps (e.over l) rem cs
-     | some l, some _ => dropAnd tbl ps (e.over l) true cs)
-def dropOr (tbl : ClassTable) (ps : Positions) (e : Env) (rem : Bool) : List Cond → Bool
-  | [] => false
-  | c :: cs =>
-    dropCond tbl ps e c ||
-    (let r := evalCond tbl ps e c
-     match r.left, r.right with
-     | none, some rr => dropOr tbl ps (e.over rr) rem cs
-     | none, none => false
-     | some l, none => rem && nonEmptyMap (some l)
-     | some _, some rr => dropOr tbl ps (e.over rr) true cs)
-end
-
-/-- **class `boolOpDrop`**: an executed `and` (`or`) has an operand that is false (true) for every member
-still under consideration *after* earlier operands matched only part of the union: `visit_BoolOp`
-returns that operand's variable map alone (:534‥537 / :560‥563) and forgets `remaining_varmaps`, so the
-members set aside by the earlier operands never reach the `else` (`if`) branch. -/
-def D20_boolOpDrop (tbl : ClassTable) (ps : Positions) (e : Env) (body : List Stmt) : Bool :=
-  walkBlock tbl ps (dropCond tbl ps) (fun _ _ => false) e body
+  walkBlock tbl ps (fun r ss => r.any Option.isSome && !ss.all isPass) e body
 
 /-- What the reporting pipeline shows of the `show_error`s that fired in one call: every
 `UserRaisedError` is reported on the call node with code `incompatible_call` (signature.py:1356‥1364)
@@ -242,14 +187,6 @@ def reported (fired : List String) : List String := fired.take 1
 keeps one diagnostic per (node, error code) (node_visitor.py:613), so only the first reaches the user. -/
 def D20_multiError (tbl : ClassTable) (ps : Positions) (e : Env) (body : List Stmt) : Bool :=
   decide ((evalBlock tbl ps e [] body).2.length ≥ 2)
-
-/-- **class `ellipsisDefault`**: a parameter whose default is `...` is omitted by the call: its variable
-is `Literal[...]` (the default object itself) instead of the parameter's annotation. -/
-def D20_ellipsisDefault (c : EvalCase) : Bool :=
-  match context c with
-  | none => false
-  | some (poss, _) => poss.any fun np =>
-      np.2 == .dflt && (c.params.any fun p => p.name == np.1 && (match p.dflt with | .ann _ => true | _ => false))
 
 /-! ## Decidable side conditions of the union-distribution theorem -/
 
@@ -300,10 +237,7 @@ def d20Classes (tbl : ClassTable) (c : EvalCase) : List String :=
   | none => []
   | some (poss, vars) =>
     let e := Env.ofList vars
-    (if D20_ellipsisDefault c then ["ellipsisDefault"] else []) ++
-    (if D20_boolOpDrop tbl poss e c.body then ["boolOpDrop"] else []) ++
     (if D20_fallThrough tbl poss e c.body then ["fallThrough"] else []) ++
-    (if D20_overlapNarrow tbl vars c.body then ["overlapNarrow"] else []) ++
     (if D20_retyped tbl vars c.body then ["retyped"] else []) ++
     (if D20_multiError tbl poss e c.body then ["multiError"] else [])
 
